@@ -972,6 +972,16 @@ def pure_ext(it, dotted, args, kw, n):
     if dotted == 'functools.partial':
         f0, a0, k0 = args[0], list(args[1:]), dict(kw)
         return Native(lambda it_, a2, k2, node: it_.call(f0, a0 + list(a2), {**k0, **k2}, node), 'functools.partial')
+    if dotted in ('contextlib.suppress', 'suppress'):
+        names = []
+        for a_ in args:
+            nm_ = getattr(a_, 'name', None)
+            if nm_ is None:
+                raise Fail('contextlib.suppress of something that is not an exception class')
+            names.append(nm_)
+        return SuppressCM(names)
+    if dotted in ('io.BytesIO', 'BytesIO'):
+        return BytesIOModel(it, args[0] if args else None)
     if dotted in ('functools.lru_cache', 'functools.cache', 'lru_cache', 'cache'):
         # call form: lru_cache(maxsize=...)(f) / lru_cache(f) / cache(f)
         if args and not isinstance(args[0], K):
@@ -1216,6 +1226,81 @@ def ext_call(it, dotted, args, kw, n):
             return K(zlib.crc32(args[0].v))
         return Term('zlib.crc32', args[0])
     return Term('ext:' + dotted, *args, *[Term('kw', K(k), v) for k, v in sorted(kw.items())])
+
+
+class SuppressCM:
+    """contextlib.suppress(*exceptions)"""
+    not_none = True
+
+    def __init__(self, names):
+        self.names = names
+
+    def abs_key(self):
+        return ('suppress', tuple(self.names))
+
+    def abs_exit(self, it, exc):
+        return exc is not None and it.exc_matches(exc.kind, self.names, getattr(exc, 'value', None))
+
+
+class BytesIOModel:
+    """io.BytesIO used as an output buffer: write / getvalue / tell (sequential writes; symbolic pieces are concatenated)"""
+    not_none = True
+
+    def __init__(self, it, initial=None):
+        self.parts = [] if initial is None else [initial]
+        self.pos_known = True
+
+    def abs_key(self):
+        return ('obj', id(self))
+
+    def abs_truth(self, it):
+        return True
+
+    def abs_enter(self, it):
+        return self
+
+    def abs_exit(self, it, exc):
+        return False
+
+    def value(self, it):
+        out = K(b'')
+        for p_ in self.parts:
+            out = p_ if (isinstance(out, K) and out.v == b'') else it.concat(out, p_)
+            if out is None:
+                raise Fail('BytesIO content cannot be concatenated')
+        return out
+
+    def abs_attr(self, it, a, n):
+        if a == 'write':
+            def write(it_, args, kw, node):
+                b = args[0]
+                if isinstance(b, K) and isinstance(b.v, (bytes, bytearray)):
+                    b = K(bytes(b.v))
+                    ln = K(len(b.v))
+                else:
+                    ln = bytes_len(it_, b)
+                    if not isinstance(ln, K):
+                        raise Fail('BytesIO.write of a byte string of unknown length')
+                self.parts.append(b)
+                return ln
+            return Native(write, 'BytesIO.write')
+        if a in ('getvalue', 'getbuffer', 'read'):
+            if a == 'read' and self.pos_known:
+                raise Fail('BytesIO.read after writes (position at the end) is not modelled')
+            return Native(lambda it_, args, kw, node: self.value(it_), 'BytesIO.' + a)
+        if a == 'tell':
+            def tell(it_, args, kw, node):
+                tot = 0
+                for p_ in self.parts:
+                    ln = bytes_len(it_, p_)
+                    if not isinstance(ln, K):
+                        raise Fail('BytesIO.tell with a piece of unknown length')
+                    tot += ln.v
+                return K(tot)
+            return Native(tell, 'BytesIO.tell')
+        if a in ('close', 'flush'):
+            return Native(lambda it_, args, kw, node: K(None), 'BytesIO.' + a)
+        return None
 
 
 class MemoFn:
